@@ -13,9 +13,10 @@ import sys
 table = json.load(open(sys.argv[1]))
 out = "/verif/seeded"
 for mid, info in sorted(table.items()):
-    P, m = mid.split("-")
-    src = f"/tmp/mut/{P}/mutants/{m}"
-    log = f"/tmp/mut/confirm/{mid}.log"
+    parts = mid.split("-")
+    P, m = parts[-2], parts[-1]
+    src = info.get("src") or f"/tmp/mut/{P}/mutants/{m}"
+    log = info.get("log") or f"/tmp/mut/confirm/{mid}.log"
     if not os.path.exists(os.path.join(src, "patch.diff")) or not os.path.exists(log):
         print("skip (missing)", mid)
         continue
@@ -39,6 +40,7 @@ for mid, info in sorted(table.items()):
         "breaks": info.get("breaks", ""),
         "needs_to_manifest": info.get("needs", ""),
         "origin": "written by an independent sub-agent that saw only the property text and its own scratch worktree (nothing from /verif)",
+        "base_commit": info.get("base", "HEAD of /repo at evaluation time"),
         "confirmed": {
             "how": "scratch worktree of /repo HEAD under /tmp (removed afterwards): demo.py on the unmodified tree, git apply patch.diff, demo.py again, "
                    "then the 117 baseline tests (pytest -n 5 with the node ids of /root/.vp/BASELINE.json stable_pass)",
